@@ -88,14 +88,8 @@ func runC19(c *Ctx) {
 			call := calls[0].(*ssa.Call)
 			var okEdge *ssa.BasicBlock
 			var failEdge *ssa.BasicBlock
-			for _, r := range *call.Referrers() {
-				if b, ok := r.(*ssa.BinOp); ok && b.Op == token.NEQ && isNilConst(b.Y) {
-					for _, rr := range *b.Referrers() {
-						if iff, ok := rr.(*ssa.If); ok {
-							failEdge, okEdge = iff.Block().Succs[0], iff.Block().Succs[1]
-						}
-					}
-				}
+			for _, nt := range nilTests(call) {
+				failEdge, okEdge = nt.nonNil, nt.isNil
 			}
 			for _, r := range findInstrs(ncp, isReturn) {
 				ret := r.(*ssa.Return)
